@@ -448,3 +448,16 @@ package priority
 //@   modifies gDivErr, gPerm, gInv
 //@   ensures [*] result1 == nil ==> result0 != nil
 //@   ensures [C15] creation-fault-is-reported: gDivErr ==> result1 == ErrDividerBad
+
+// ---------------------------------------------------------------- API methods (run by other goroutines)
+//@ event send dsc.feedback (p)
+
+//@ func (*Discipline).Output
+//@   requires [*] dsc != nil
+//@   ensures [*] result == dsc.output
+//@ func (*Discipline).Err
+//@   requires [*] dsc != nil
+//@   ensures [*] result == dsc.err
+//@ func (*Discipline).Release
+//@   requires [*] dsc != nil
+//@   modifies gClock
